@@ -189,9 +189,11 @@ def pred_test(names, pat, idx=0, require_all=True):
 
 
 class CutPolicy(Policy):
-    def __init__(self, cuts=(), opaque=(), record=None):
+    def __init__(self, cuts=(), opaque=(), summarize=None):
         self.cuts = list(cuts)
         self.opaque = frozenset(opaque)
+        if summarize is not None:
+            self.summarize = frozenset(summarize)
         self.hits = {}      # cut name -> list of (fn, bb)
 
     def filter_edges(self, I, frame, bb, opv, labels3):
@@ -212,7 +214,7 @@ class CutPolicy(Policy):
 # ------------------------------------------------------------------ analyses
 
 OUTFLOW_AGG = re.compile(r"(cosmwasm_std::(BankMsg|WasmMsg|CosmosMsg|AnyMsg|StakingMsg|DistributionMsg|IbcMsg|GovMsg)::)")
-OUTFLOW_CALL = re.compile(r"(cosmwasm_std::wasm_execute|cosmwasm_std::wasm_instantiate|cosmwasm_std::SubMsg)")
+OUTFLOW_CALL = re.compile(r"(cosmwasm_std::wasm_execute|cosmwasm_std::wasm_instantiate|cosmwasm_std::SubMsg::<)")
 
 
 class Analysis:
